@@ -185,7 +185,7 @@ OpSpace ==
 \* The polynomial / commitment / state lists handed to batch_open, open_combinations and their verifiers are
 \* keyed by label: the order in which the caller lists them carries no meaning.  `perm` = 0: ascending labels
 \* on both sides; 1: the prover's lists reversed; 2: the verifier's commitment list reversed; 3: both.
-ListOrders == IF Mode \in {"C01", "C11"} /\ MaxPolys >= 2 THEN {0, 1, 2, 3} ELSE {0}
+ListOrders == IF Mode = "C01" /\ MaxPolys >= 2 THEN {0, 1, 2, 3} ELSE {0}
 OpSpaceP == {o @@ [perm |-> p] : o \in OpSpace, p \in ListOrders} \ {o @@ [perm |-> p] : o \in {x \in OpSpace : x.kind = "open"}, p \in {1, 2, 3}}
 
 \* --------------------------------------------------------------------------
